@@ -367,6 +367,7 @@ def run_seq(part, seq, verbose=False):
     replay = {'part': 'c', 'seq': seq}
     hist = list()
     obs  = list()
+    prev = {'map': dict(), 'proc': dict()}   # differences already reported
 
     def viol(clause, site, trigger, what):
         part.violation('%s|%s|%s' % (clause, site, trigger),
@@ -440,12 +441,19 @@ def run_seq(part, seq, verbose=False):
             obs.append(o)
 
             # -- restoration before the next request runs ------------------------
-            d_map = env_diff(now.mapping, ref.mapping)
+            # (a difference is attributed to the request after which it shows
+            # up first)
+            d_map_all  = env_diff(now.mapping, ref.mapping)
+            d_proc_all = env_diff(now.process, ref.process)
+            d_map  = {k: v for k, v in d_map_all.items()
+                           if prev['map'].get(k) != v}
+            d_proc = {k: v for k, v in d_proc_all.items()
+                           if prev['proc'].get(k) != v}
+            prev['map'], prev['proc'] = d_map_all, d_proc_all
             if d_map:
                 viol('env-restored', site, 'mapping',
                      'os.environ after %s differs from before the first '
                      'request: %s' % (spec_name(spec), d_map))
-            d_proc = env_diff(now.process, ref.process)
             if d_proc:
                 seen = child_environ()
                 conf = {k: seen.get(k) for k in d_proc}
